@@ -56,7 +56,7 @@ def run_stream(ctx, prop):
             p, n = gen(ctx, cfg, "beh-%d.jsonl" % len(results), **kw)
             total_beh += n
             res = harness(ctx, vh, ["store", "--cases", p, "--seed", str(ctx.seed), "--nodes", nodes,
-                                    "--instances", "8"] + extra, timeout=3400)
+                                    "--instances", "8" if t == "quick" else "16"] + extra, timeout=3400)
             results.append(res)
 
     if lww:
